@@ -136,12 +136,69 @@ def e2e_discriminated(run, ctx) -> None:
                               expected="the variant the discriminator value maps to, re-encoding to the payload; errors for unmapped / undecodable payloads", what=msg[:400])
 
 
+# ------------------------------------------------------------------------------------------------------------------
+# end to end: UNDISCRIMINATED unions for which first-match decoding IN DOCUMENT ORDER is lossless - the earlier variant X has a
+# required key of its own, the later variant Y requires only keys that X declares as optional (and has MORE required keys than X):
+# Y's payloads are rejected by X, X's payloads are taken by X.  Any other order of the emitted Union[...] decodes X's full payloads as Y
+# and drops X's own keys (F24 is about documents where NO order is lossless; this family is outside it).
+def ordered_union_case(i: int) -> dict:
+    r = rng(f"C14:ordered-union:{i}")
+    xn, yn = r.choice([("Account", "Contact"), ("Order", "Address"), ("Zebra", "Ant"), ("Alpha", "Beta")])
+    idk = r.choice(["id", "accountId", "ref"])
+    ykeys = r.sample(["email", "phone", "street", "city", "zip"], r.randint(2, 3))
+    extra = r.sample(["note", "nickname", "vip"], r.randint(0, 2))
+    X = {"type": "object", "required": [idk], "properties": {idk: {"type": "integer"}, **{k: {"type": "string"} for k in ykeys + extra}}}
+    Y = {"type": "object", "required": list(ykeys), "properties": {k: {"type": "string"} for k in ykeys}}
+    kw = r.choice(["oneOf", "anyOf"])
+    union = {kw: [{"$ref": f"#/components/schemas/{xn}"}, {"$ref": f"#/components/schemas/{yn}"}]}
+    inline = i % 3 == 0
+    schemas = {xn: X, yn: Y, "Party": union,
+               "Ledger": {"type": "object", "required": ["owner"], "properties": {
+                   "owner": union if inline else {"$ref": "#/components/schemas/Party"},
+                   "parties": {"type": "array", "items": {"$ref": "#/components/schemas/Party"}}}}}
+    if i % 2:
+        schemas = dict(reversed(list(schemas.items())))          # declaration order of the COMPONENTS is irrelevant; the oneOf order decides
+    doc = {"openapi": "3.0.3", "info": {"title": "U", "version": "1"}, "paths": {"/l": {"get": {"operationId": "getLedger", "responses": {"200": {"description": "ok",
+           "content": {"application/json": {"schema": {"$ref": "#/components/schemas/Ledger"}}}}}}}}, "components": {"schemas": schemas}}
+    xfull = {idk: 7, **{k: k + "-v" for k in ykeys + extra}}
+    xmin = {idk: 1}
+    ypay = {k: k + "-w" for k in ykeys}
+    items = []
+    for j, (owner, parties) in enumerate([(xfull, [ypay, xfull]), (ypay, [xmin]), (xmin, [xfull, ypay, ypay]), (xfull, [])]):
+        items.append({"id": f"Ledger-{j}", "cls": "Ledger", "schema": "Ledger", "json": {"owner": owner, "parties": parties}, "expect": "ok"})
+    return {"id": f"ordered-union-{i}", "doc": doc, "items": items, "aliases": False}
+
+
+def e2e_ordered_unions(run, ctx) -> None:
+    cases = [ordered_union_case(i) for i in range(ctx.budget(8, 60))]
+    results = e2e.run_cases("vf.props.C14:case_fn", cases)
+    run.cov["rule"] = (run.cov.get("rule") or "") + ("[e2e ordered unions] oneOf/anyOf [X, Y] of object schemas where X requires a key of its own and Y requires only keys X declares as "
+                       "optional (Y has more required keys than X): first match in DOCUMENT order is lossless, every other order is not; as an alias, inline in a field and as list items; "
+                       "payloads: X full, X minimal, Y ")
+    for case, res in zip(cases, results):
+        if "infra_error" in res:
+            run.infra_errors.append(res["infra_error"])
+            continue
+        if not res.get("gen_ok"):
+            run.dist("e2e-ordered-unions", "generation rejected")
+            continue
+        run.dist("e2e-ordered-unions", "generated")
+        for it in case["items"]:
+            run.count({"doc": case["id"], "item": it["id"], "json": it["json"]}, nontrivial=True)
+        run.cov["traces_validated_against_impl"] += len(case["items"])
+        for it, msg in judge_disc(case, res)[:2]:
+            if len(run.violations) < 5:
+                run.violation("input", {"e2e": "ordered-union", "doc": case["doc"], "items": case["items"]}, observed=msg,
+                              expected="each payload decoded as the variant it conforms to in document order, re-encoding to the payload", what=msg[:400])
+
+
 def check(run, ctx) -> None:
     known = findings.Known(run, PROP)
     g.run_corr(run, ctx, CORR, "Conv (structure/unstructure/_structure_union/serializer vs the real converter)", quick=1.0, thorough=8.0)
     g.replay_witnesses(run, known, {"F24": CORR, "F24b": CORR})
     g.run_oracle(run, ctx, _Scoped(known, CLASSES), CORR, "converter laws on the real converter (random dataclass type trees, unions, payloads)", CLASSES, quick=1.0, thorough=8.0)
     e2e_discriminated(run, ctx)
+    e2e_ordered_unions(run, ctx)
     known.report_unreplayed()
 
 
@@ -151,7 +208,7 @@ def search(run, ctx) -> None:
 
 def replay(run, ctx, rec) -> bool:
     case = rec.get("case") or {}
-    if case.get("e2e") == "discriminated":
+    if case.get("e2e") in ("discriminated", "ordered-union"):
         c = {"id": "replay", "doc": case["doc"], "items": case["items"]}
         res = e2e.run_cases("vf.props.C14:case_fn", [c], workers=1)[0]
         return bool(res.get("gen_ok")) and bool(judge_disc(c, res))
